@@ -4,7 +4,7 @@
 (* (sparse fieldsets / relationship data), C11 (determinism).                 *)
 (*                                                                           *)
 (* The schema of this family is fixed:                                       *)
-(*   t1: attributes a, n   relationships o (to-one -> t2), m (to-many -> t2)  *)
+(*   t1: attributes a, n   relationships o, o2 (to-one -> t2), m, m2 (to-many -> t2) *)
 (*   t2: attribute  b      relationship  p (to-one -> t1)                     *)
 (* A resource: [type, id, vals: [field -> [nil, r, ids]]].                    *)
 (* A document: [kind, coll, primary, included, nerrors, fields, reldata]      *)
@@ -13,8 +13,8 @@
 EXTENDS Integers, Sequences, FiniteSets, TLC
 
 AttrsOf(t) == IF t = "t1" THEN {"a", "n"} ELSE IF t = "t2" THEN {"b"} ELSE {}
-RelsOf(t)  == IF t = "t1" THEN {"o", "m"} ELSE IF t = "t2" THEN {"p"} ELSE {}
-ToOne(t, f) == f \in {"o", "p"}
+RelsOf(t)  == IF t = "t1" THEN {"o", "m", "o2", "m2"} ELSE IF t = "t2" THEN {"p"} ELSE {}
+ToOne(t, f) == f \in {"o", "o2", "p"}
 Target(t, f) == IF t = "t1" THEN "t2" ELSE "t1"
 
 AsSet(q) == {q[i] : i \in 1..Len(q)}
